@@ -54,6 +54,7 @@ type Engine struct {
 	token   *dbkit.Semaphore
 	txn     *Transaction
 	trims   uint64
+	trimmed primitive.Timestamp
 	tomb    tomb.Tomb
 	mutex   sync.Mutex
 }
@@ -240,6 +241,7 @@ func (e *Engine) Commit(txn *Transaction) error {
 	}
 
 	// clean oplog
+	events := txn.Catalog().Namespaces[Oplog].Documents.List
 	trimmed := txn.Clean(e.opts.MinOplogSize, e.opts.MaxOplogSize, e.opts.MinOplogAge, e.opts.MaxOplogAge)
 
 	// write catalog
@@ -252,8 +254,14 @@ func (e *Engine) Commit(txn *Transaction) error {
 	e.catalog = txn.Catalog()
 
 	// count trims so that streams without a position can detect lost events
+	// and remember the newest discarded event for streams that are asked to
+	// start at an earlier time
 	if trimmed > 0 {
 		e.trims++
+		ts, ok := bsonkit.Get(events[trimmed-1], "clusterTime").(primitive.Timestamp)
+		if ok {
+			e.trimmed = ts
+		}
 	}
 
 	// broadcast change
@@ -347,6 +355,12 @@ func (e *Engine) Watch(handle Handle, pipeline bsonkit.List, resumeAfter, startA
 	// start at: deliver events with clusterTime at or after the given
 	// timestamp; the supplied timestamp need not match an existing event
 	if startAt != nil {
+		// events at or after the start time that have been discarded already
+		// cannot be delivered anymore
+		if !e.trimmed.IsZero() && bsonkit.Compare(*startAt, e.trimmed) <= 0 {
+			return nil, ErrLostOplogPosition
+		}
+
 		// position last just before the first event at-or-after startAt; if
 		// every event is older than startAt, leave last at the newest entry
 		// (the stream then waits for future events)
